@@ -1,4 +1,4 @@
-#!/usr/bin/env python3
+#!/usr/bin/env python3-vt
 """C10 / C11: FixedString<L> - E1 (ll2c + CBMC) inductive single-step harnesses."""
 import sys, os
 sys.path.insert(0, os.path.join(os.path.dirname(os.path.abspath(__file__)), '..', '..', 'engine'))
@@ -24,7 +24,7 @@ def main(prop, tier, only=None, caps=None):
     rule = ('one obligation = (public operation, capacity L): CBMC decides the post-conditions for every valid pre-state and every '
             'argument value inside the bound; non-trivial = decided and its witness twin (assert(0) at the end of the harness) is reachable')
     assumptions = ['IR from clang++-14 -O1 -D_GLIBCXX_ASSERTIONS -DNDEBUG of the unmodified header', 'll2c IR->C translator (validated per run against g++ build on random vectors)',
-                   'allocation never fails', 'std::string overloads are not in this engine (E2)', 'capacities outside the listed ones are not claimed',
+                   'allocation never fails', 'capacities outside the listed ones are not claimed',
                    'source strings <= L+3 bytes', 'sprintf(): not covered (vsnprintf is libc)']
     rep = Report(prop, tier)
     if prop == 'C11':
@@ -35,7 +35,21 @@ def main(prop, tier, only=None, caps=None):
         rep.extra['reference_model_vs_std_string'] = r['out'].strip()
         if r['rc'] != 0 or not r['out'].startswith('OK'):
             rep.inconc('fixed_string_C11/reference model', 'ref_model.h disagrees with std::string: ' + r['out'][:200])
-    return run_units(prop, tier, units, rule, assumptions, rep=rep)
+    run_units(prop, tier, units, rule, assumptions, rep=rep, finish=False)
+    # std::string overloads, at(), str(), substr(), operator<< : E2 with the real std::string as oracle
+    from e2 import E2Unit, run_e2
+    e2caps = [3] if tier == 'quick' else [1, 3, 4]
+    e2units = []
+    for L in e2caps:
+        shapes = [('hx_fs_str', [op, 0 if prop == 'C10' else 1], 'L%d/strop%d' % (L, op)) for op in range(26) if not (prop == 'C10' and op in (22, 25))]
+        if only:
+            shapes = [x for x in shapes if re.search(only, x[2])]
+        e2units.append(E2Unit('fixed_string_e2_%s_L%d' % (prop, L), os.path.join(HERE, 'w_fs_e2.cpp'), defines=['CAP=%d' % L], shapes=shapes, timeout=600, conc_cap=300, validate_vectors=4,
+                              bounds=dict(capacity=L, std_string_argument='<= 3 symbolic bytes', positions='unconstrained 64-bit' if prop == 'C10' else 'documented domain')))
+    run_e2(prop, tier, e2units, rule, ['std::string overloads: E2 (irsym) with the real std::string header code as oracle, capacities ' + str(e2caps)], rep=rep, finish=False,
+           classify=lambda v: v['msg'] if v['kind'] == 'assert' else v['kind'] + ': ' + re.sub(r'0x[0-9a-f]+', 'ADDR', re.sub(r'\d+', 'N', v['msg']))[:100],
+           keyfn=lambda u, r, v, cls: '%s:e2 strop%s|%s' % (prop, r['args'][0], cls))
+    return rep.finish(rule)
 
 
 if __name__ == '__main__':
